@@ -112,6 +112,10 @@ CONTRACTS = [
     ),
 ]
 
+from contracts import c11 as _c11  # noqa: E402
+
+# sha1_crypt's builtin backend keys its HMAC with the password: RFC 2104 key handling (shared with C11) is what makes it agree with crypt(3)
+CONTRACTS += [c for c in _c11.CONTRACTS if c.id == "compile_hmac"]
 BOUNDED = [Bounded("c03", "harness/c03.py", descr="every ordered pair of loadable backends, switching sequences, independent oracles", timeout=900)]
 
 MUTANTS = [
